@@ -14,7 +14,16 @@ Reading guide
 * `OpOk env op` : arguments within the C parameter types, callbacks that report success, item sets
                   terminated by `SCHED_END_SET()` (decidable).
 * `abs s d`     : the live items of `bucket[(cur_bucket + d) % 25]` without their `flags`.
-* callbacks do not re-enter the scheduler (assumption of the model).
+* `Env`         : what a callback returns (`ret`) and the scheduler calls it makes from inside when it is
+                  invoked (`scripts`, "on the fly" scheduling: `tdma_schedule` / `tdma_schedule_set` for the
+                  current frame or a later one; the scheduled callbacks may be scripted themselves).
+                  `EnvOk env` (decidable): every scripted call is an admissible operation.
+                  `NoReentry env` (decidable): no callback makes a call — the special case of the first
+                  version of this file; then `EnvOk env` holds and `flyOps env out = []`
+                  (`noReentry_special_case`), so every hypothesis about calls made from inside is void.
+* `flyOps env out` : the calls made from inside by the callbacks that the operation with output `out`
+                  ran, in order (computed from what ran — a fact about the history, not an assumption
+                  about the code).
 -/
 import OsmoVerif.Lemmas.TdmaSched
 
@@ -45,62 +54,129 @@ theorem init_inv (env : Env) (cur : Nat) (h : cur < 25) :
 
 /-- No admissible operation indexes outside an array or calls a NULL pointer, and the invariant is
 preserved: it holds in every state reachable from `init` by admissible operations. -/
-theorem step_safe (env : Env) (s : Sched) (op : Op) (hinv : Inv env s) (hop : OpOk env op) :
+theorem step_safe (env : Env) (s : Sched) (op : Op) (hinv : Inv env s) (henv : EnvOk env)
+    (hop : OpOk env op) :
     ∃ s' out, step env s op = .ok (s', out) ∧ Inv env s' := by
-  obtain ⟨s', out, h1, h2, _, _⟩ := step_refines env s op hinv hop
+  obtain ⟨s', out, h1, h2, _, _⟩ := step_spec env s op hinv henv hop
   exact ⟨s', out, h1, h2⟩
+
+/-- ... and so does every history of admissible operations, with callbacks that schedule on the fly
+(any nesting; a callback that keeps re-scheduling itself for the current frame included: it is refused
+when the frame is full). -/
+theorem history_safe (env : Env) (s : Sched) (ops : List Op) (hinv : Inv env s) (henv : EnvOk env)
+    (hops : ∀ op ∈ ops, OpOk env op) :
+    ∃ s' outs, run env s ops = .ok (s', outs) ∧ Inv env s' :=
+  run_safe env henv ops s hinv hops
+
+/-- **The ring position over histories of any length.**  `cur_bucket` (a `uint8_t` in the C code) is,
+after any history of admissible operations, the start position plus the number of
+`tdma_sched_advance()` calls modulo 25 — after 255, 256, 511, ... advances as well: the value stored by
+`sched->cur_bucket = wrap_bucket(1)` never exceeds 24, so the `uint8_t` never rolls over. -/
+theorem cur_bucket_ring (env : Env) (s : Sched) (ops : List Op) (hinv : Inv env s) (henv : EnvOk env)
+    (hops : ∀ op ∈ ops, OpOk env op) :
+    ∃ s' outs, run env s ops = .ok (s', outs) ∧
+      s'.cur = (s.cur + advancesBefore ops ops.length) % 25 ∧ s'.cur < 25 := by
+  obtain ⟨s', outs, h1, h2, h3⟩ := run_cur env henv ops s hinv hops
+  refine ⟨s', outs, h1, ?_, h2.1.2.1⟩
+  rw [h3, advancesBefore, List.take_length]
+
+/-- callbacks that do not re-enter the scheduler are the special case in which every hypothesis about
+calls made from inside holds trivially -/
+theorem noReentry_special_case (env : Env) (h : NoReentry env) :
+    EnvOk env ∧ ∀ o : Out, flyOps env o = [] :=
+  ⟨noReentry_envOk env h, flyOps_noReentry env h⟩
 
 /-- **Refinement.**  Every operation of the code, from every well-formed state (any `cur_bucket`),
 does to the pending work exactly what the abstract "due in d frames" machine does, with the same
 return value; the callbacks run by `execute` are a priority-ordered permutation of the items due
-now (`OutMatch`). -/
-theorem sched_refines (env : Env) (s : Sched) (op : Op) (hinv : Inv env s) (hop : OpOk env op) :
+now (`OutMatch`).  (For `execute` this plain abstract machine is the specification when callbacks do
+not re-enter the scheduler; `execute_on_the_fly` is the statement for callbacks that do.) -/
+theorem sched_refines (env : Env) (s : Sched) (op : Op) (hinv : Inv env s) (hop : OpOk env op)
+    (hne : op = .execute → NoReentry env) :
     ∃ s' out, step env s op = .ok (s', out) ∧ Inv env s' ∧
       abs s' = (Spec.TdmaSched.step (abs s) (absOp op)).1 ∧
-      OutMatch out (Spec.TdmaSched.step (abs s) (absOp op)).2 :=
-  step_refines env s op hinv hop
+      OutMatch out (Spec.TdmaSched.step (abs s) (absOp op)).2 := by
+  obtain ⟨s', out, h1, h2, h3, h4, _⟩ := step_refines env s op hinv hop hne
+  exact ⟨s', out, h1, h2, h3, h4⟩
+
+/-- **Refinement of `execute` with callbacks that schedule on the fly.**  In an admissible
+environment `tdma_sched_execute()` never faults, returns the number of callbacks it invoked, and what it
+does is an admissible on-the-fly execution (`Spec.TdmaSched.ExecOnTheFly`): the callbacks invoked are a
+priority-ordered permutation of the items due when it started, followed by the items that the calls made
+from inside added to the current frame, in the order added; the calls made from inside act on the
+pending work exactly like the same calls made from outside at that moment (same return values — `-1`
+into a full frame, nothing changed); finally the current frame is emptied. -/
+theorem execute_on_the_fly (env : Env) (s : Sched) (hinv : Inv env s) (henv : EnvOk env) :
+    ∃ s' out, step env s .execute = .ok (s', out) ∧ Inv env s' ∧ out.rc = (out.ran.length : Int) ∧
+      out.rets.length = out.ran.length ∧
+      Spec.TdmaSched.ExecOnTheFly (absScr env) (abs s) (out.ran.map absItem) (abs s') out.rets.flatten := by
+  obtain ⟨s', out, h1, h2, h3, _⟩ := step_spec env s .execute hinv henv trivial
+  obtain ⟨a, b, c⟩ := h3 rfl
+  exact ⟨s', out, h1, h2, a, b, c⟩
 
 /-- Refinement of whole histories. -/
 theorem sched_refines_run (env : Env) (s : Sched) (ops : List Op) (hinv : Inv env s)
-    (hops : ∀ op ∈ ops, OpOk env op) :
+    (hne : NoReentry env) (hops : ∀ op ∈ ops, OpOk env op) :
     ∃ s' outs, run env s ops = .ok (s', outs) ∧ Inv env s' ∧
       abs s' = (Spec.TdmaSched.run (abs s) (ops.map absOp)).1 ∧
       OutsMatch outs (Spec.TdmaSched.run (abs s) (ops.map absOp)).2 :=
-  run_refines env ops s hinv hops
+  run_refines env hne ops s hinv hops
 
-/-- **Priority order.**  `tdma_sched_execute()` invokes every live item of the current bucket exactly
-once (the executed sequence is a permutation of the bucket) in ascending priority order, and returns
-their number.  (Proved for the exchange sort of `_tdma_sched_bucket_sort` as it is; the order among
-equal priorities is whatever that sort produces — it is not stable.) -/
-theorem prio_order (env : Env) (s : Sched) (hinv : Inv env s) :
-    ∃ b s' ran, s.bucket[s.cur]? = some b ∧
-      step env s .execute = .ok (s', ⟨(b.numItems : Int), ran⟩) ∧
-      ran.Perm (live b) ∧ ran.Pairwise (fun x y => x.prio ≤ y.prio) := by
-  obtain ⟨b, ran, hb, he, hperm, hpw⟩ := execute_spec env s hinv
-  refine ⟨b, { s with bucket := s.bucket.set s.cur { b with numItems := 0 } }, ran, hb, ?_, hperm, hpw⟩
-  simp only [step, bind, Except.bind, he]; rfl
+/-- **Priority order.**  `tdma_sched_execute()` first invokes every item the current bucket held when it
+started, exactly once (`pre` is a permutation of the bucket), in ascending priority order; then (`fly`)
+whatever the callbacks appended to the bucket meanwhile; it returns the number of callbacks invoked.
+With callbacks that do not re-enter, `fly = []` and the result is `num_items`.  (Proved for the exchange
+sort of `_tdma_sched_bucket_sort` as it is; the order among equal priorities is whatever that sort
+produces — it is not stable.) -/
+theorem prio_order (env : Env) (s : Sched) (hinv : Inv env s) (henv : EnvOk env) :
+    ∃ b s' ran rets pre fly, s.bucket[s.cur]? = some b ∧
+      step env s .execute = .ok (s', ⟨(ran.length : Int), ran, rets⟩) ∧
+      ran = pre ++ fly ∧ pre.Perm (live b) ∧ pre.Pairwise (fun x y => x.prio ≤ y.prio) ∧
+      (NoReentry env → fly = [] ∧ ran.length = b.numItems) := by
+  obtain ⟨b, sf, bf, ran, rets, pre, hb, he, hif, hcf, hbf, _, hfold, hm, hran, hperm, hpw⟩ :=
+    execute_spec env s hinv henv
+  refine ⟨b, clearCur sf bf, ran, rets, pre, (live bf).drop b.numItems, hb, ?_, hran, hperm, hpw, ?_⟩
+  · simp only [step, bind, Except.bind, he]; rfl
+  · intro hne
+    have hs : sf = s := foldCb_noReentry env hne ran s sf rets hfold
+    subst hs
+    rw [hb] at hbf
+    simp only [Option.some.injEq] at hbf
+    subst hbf
+    refine ⟨?_, hm⟩
+    apply List.drop_eq_nil_of_le
+    rw [live_length b (invBucketWF env sf hinv sf.cur b hb)]
+    exact Nat.le_refl _
 
-/-- **An executed frame is left empty**: `num_items` of the current bucket is 0, nothing is due now,
-and every other frame is untouched. -/
-theorem executed_empty (env : Env) (s : Sched) (hinv : Inv env s) :
+/-- **An executed frame is left empty**: `num_items` of the current bucket is 0, nothing is due now, and
+every other frame holds what it held plus what the calls made from inside (`flyOps env out`) placed
+there — with callbacks that do not re-enter: every other frame is untouched. -/
+theorem executed_empty (env : Env) (s : Sched) (hinv : Inv env s) (henv : EnvOk env) :
     ∃ s' out, step env s .execute = .ok (s', out) ∧ s'.cur = s.cur ∧
       (∀ b, s'.bucket[s'.cur]? = some b → b.numItems = 0) ∧
-      abs s' 0 = [] ∧ ∀ d, d ≠ 0 → abs s' d = abs s d := by
-  obtain ⟨b, ran, hb, he, _, _⟩ := execute_spec env s hinv
-  obtain ⟨s', rc, ran', he', _, hcur, ha, _, _⟩ := execute_abs env s hinv
-  have hs : s' = { s with bucket := s.bucket.set s.cur { b with numItems := 0 } } := by
-    rw [he] at he'
-    simp only [Except.ok.injEq, Prod.mk.injEq] at he'
-    exact he'.1.symm
-  refine ⟨s', ⟨rc, ran'⟩, ?_, hcur, ?_, ?_, ?_⟩
-  · simp only [step, bind, Except.bind, he']; rfl
+      abs s' 0 = [] ∧
+      (∀ d, d ≠ 0 → abs s' d = (Spec.TdmaSched.run (abs s) (flyOps env out)).1 d) ∧
+      (NoReentry env → ∀ d, d ≠ 0 → abs s' d = abs s d) := by
+  obtain ⟨s', ran, rets, he, hi, hc, _, pre, fly, _, _, _, hdue, _⟩ := execute_refines env s hinv henv
+  have h0 : abs s' 0 = [] := by rw [hdue]; simp [Spec.TdmaSched.execute]
+  have hd : ∀ d, d ≠ 0 → abs s' d =
+      (Spec.TdmaSched.run (abs s) (flyOps env ⟨(ran.length : Int), ran, rets⟩)).1 d := by
+    intro d hd
+    rw [hdue]; simp [Spec.TdmaSched.execute, hd, flyOps]
+  refine ⟨s', ⟨ran.length, ran, rets⟩, ?_, hc, ?_, h0, hd, ?_⟩
+  · simp only [step, bind, Except.bind, he]; rfl
   · intro b' hb'
-    rw [hs] at hb'
-    simp only [List.getElem?_set_self (lt_of_get? _ _ _ hb), Option.some.injEq] at hb'
-    rw [← hb']
-  · rw [ha]; simp [Spec.TdmaSched.execute]
-  · intro d hd
-    rw [ha]; simp [Spec.TdmaSched.execute, hd]
+    have hc25 := hi.1.2.1
+    have := abs_get s' 0 b' (by decide) (by
+      have : (s'.cur + 0) % 25 = s'.cur := by omega
+      rw [this]; exact hb')
+    rw [h0] at this
+    have hl := absBucket_length b' (invBucketWF env s' hi s'.cur b' hb')
+    rw [← this] at hl
+    simpa using hl.symm
+  · intro hne d hd0
+    rw [hd d hd0, flyOps_noReentry env hne]
+    rfl
 
 /-- **Overflow is reported, nothing is overwritten** (`tdma_schedule`): into a bucket that holds 8
 items the call returns −1 and the whole scheduler state is unchanged; otherwise it returns 0 and the
@@ -108,11 +184,11 @@ item is appended to the frame `off` ahead (here for every `off < 256`: the frame
 theorem overflow_reported (env : Env) (s : Sched) (off : Nat) (cb : Cb) (p1 p2 p3 : Nat) (prio : Int)
     (hinv : Inv env s) (hop : OpOk env (.schedule off cb p1 p2 p3 prio))
     (b : Bucket) (hb : s.bucket[(s.cur + off) % 25]? = some b) :
-    (8 ≤ b.numItems → step env s (.schedule off cb p1 p2 p3 prio) = .ok (s, ⟨-1, []⟩)) ∧
-    (b.numItems < 8 → ∃ s', step env s (.schedule off cb p1 p2 p3 prio) = .ok (s', ⟨0, []⟩) ∧
+    (8 ≤ b.numItems → step env s (.schedule off cb p1 p2 p3 prio) = .ok (s, ⟨-1, [], []⟩)) ∧
+    (b.numItems < 8 → ∃ s', step env s (.schedule off cb p1 p2 p3 prio) = .ok (s', ⟨0, [], []⟩) ∧
       abs s' = Spec.TdmaSched.put (abs s) (off % 25) ⟨cb, p1, p2, p3, prio⟩) := by
   obtain ⟨ho, h1, h2, h3, hp1, hp2, hok⟩ := hop
-  obtain ⟨s', rc, he, hi, _, ha, hsame⟩ :=
+  obtain ⟨s', rc, he, hi, _, ha, hsame, _⟩ :=
     schedule_spec env s off cb p1 p2 p3 prio hinv ho h1 h2 h3 ⟨hp1, hp2⟩ hok
   have hf := full_iff s off b hinv.1 hb
   simp only [Spec.TdmaSched.schedule] at ha
@@ -135,12 +211,12 @@ in both cases every frame keeps all the items it held, in their places (the item
 before the overflow stay scheduled). -/
 theorem overflow_reported_set (env : Env) (s : Sched) (off : Nat) (set : List Item) (p3 : Nat)
     (hinv : Inv env s) (hop : OpOk env (.scheduleSet off set p3)) :
-    ∃ s' rc, step env s (.scheduleSet off set p3) = .ok (s', ⟨rc, []⟩) ∧
+    ∃ s' rc, step env s (.scheduleSet off set p3) = .ok (s', ⟨rc, [], []⟩) ∧
       (∀ d, abs s d <+: abs s' d) ∧
       ((Spec.TdmaSched.putFrames (abs s) off (framesOf p3 set)).2 = false → rc = -1) ∧
       ((Spec.TdmaSched.putFrames (abs s) off (framesOf p3 set)).2 = true → rc = (markers set : Int)) := by
   obtain ⟨he, hm, h3, hok⟩ := hop
-  obtain ⟨s', rc, hee, hi, _, ha⟩ := scheduleSet_spec env s off set p3 hinv he hm h3 hok
+  obtain ⟨s', rc, hee, hi, _, ha, _⟩ := scheduleSet_spec env s off set p3 hinv he hm h3 hok
   refine ⟨s', rc, ?_, ?_, ?_, ?_⟩
   · simp only [step, bind, Except.bind, hee]; rfl
   · intro d
@@ -176,13 +252,13 @@ frames of the set stay below the scheduler depth (`off + markers < 25`), then it
 common `p3`) are appended to the frame due in `off + k`, in order, and no other frame changes. -/
 theorem set_placement (env : Env) (s : Sched) (off : Nat) (set : List Item) (p3 : Nat)
     (hinv : Inv env s) (hop : OpOk env (.scheduleSet off set p3)) (hdepth : off + markers set < 25) :
-    ∃ s' rc, step env s (.scheduleSet off set p3) = .ok (s', ⟨rc, []⟩) ∧ Inv env s' ∧
+    ∃ s' rc, step env s (.scheduleSet off set p3) = .ok (s', ⟨rc, [], []⟩) ∧ Inv env s' ∧
       (rc ≠ -1 →
         rc = (markers set : Int) ∧
         (∀ k f, (framesOf p3 set)[k]? = some f → abs s' (off + k) = abs s (off + k) ++ f) ∧
         (∀ d, d < off ∨ off + markers set < d → abs s' d = abs s d)) := by
   obtain ⟨he, hm, h3, hok⟩ := hop
-  obtain ⟨s', rc, hee, hi, _, ha⟩ := scheduleSet_spec env s off set p3 hinv he hm h3 hok
+  obtain ⟨s', rc, hee, hi, _, ha, _⟩ := scheduleSet_spec env s off set p3 hinv he hm h3 hok
   refine ⟨s', rc, ?_, hi, ?_⟩
   · simp only [step, bind, Except.bind, hee]; rfl
   · intro hrc
@@ -212,25 +288,41 @@ def hitOp (d : Nat) (ops : List Op) (i : Nat) : Prop :=
 instance (d : Nat) (ops : List Op) (i : Nat) : Decidable (hitOp d ops i) := by
   unfold hitOp; infer_instance
 
+/-- a sufficient static condition for `NoFlyPlaces`: no script of the environment places `x` -/
+theorem noFlyPlaces_of_scripts (env : Env) (x : AItem Cb)
+    (h : ∀ e ∈ env.scripts, ∀ c ∈ e.2, x ∉ Spec.TdmaSched.placed (absCall c)) (outs : List Out) :
+    NoFlyPlaces env x outs := by
+  intro o _ c hc
+  simp only [flyOps] at hc
+  obtain ⟨y, _, hy⟩ := List.mem_flatMap.mp hc
+  simp only [absScr] at hy
+  split at hy
+  · rename_i id _
+    obtain ⟨c0, hc0, rfl⟩ := List.mem_map.mp hy
+    obtain ⟨e, he, hce⟩ := scriptOf_mem env id c0 hc0
+    exact h e he c0 hce
+  · simp at hy
+
 /-- **Ring statement** (no discipline assumed).  An item `x` that is pending exactly once, in the frame
-due in `d < 25`, runs — in any history of admissible operations without `reset` that does not
-schedule another copy of `x` — exactly once: at the first `execute` that happens when the number of
-advances is `d` modulo 25, with the parameters it was scheduled with; every other operation runs it
-0 times.  (An un-executed bucket comes round again 25 advances later.) -/
+due in `d < 25`, runs — in any history of admissible operations without `reset` in which neither an
+operation nor a call made from inside a callback schedules another copy of `x` — exactly once: at the
+first `execute` that happens when the number of advances is `d` modulo 25, with the parameters it was
+scheduled with; every other operation runs it 0 times.  (An un-executed bucket comes round again 25
+advances later.) -/
 theorem pending_runs_ring (env : Env) (s : Sched) (x : AItem Cb) (d : Nat) (rest : List Op)
-    (hinv : Inv env s) (hd : d < 25)
+    (hinv : Inv env s) (henv : EnvOk env) (hd : d < 25)
     (h1 : (abs s d).count x = 1) (h0 : ∀ e, e < 25 → e ≠ d → (abs s e).count x = 0)
     (hrest : ∀ op ∈ rest, OpOk env op)
     (hother : ∀ op ∈ rest, x ∉ Spec.TdmaSched.placed (absOp op))
-    (hnoreset : ∀ op ∈ rest, isResetOp op = false) :
+    (hnoreset : ∀ op ∈ rest, isResetOp op = false)
+    (hfly : ∀ s' outs, run env s rest = .ok (s', outs) → NoFlyPlaces env x outs) :
     ∃ s' outs, run env s rest = .ok (s', outs) ∧
       ∀ i o, outs[i]? = some o →
         ranCount x o = if hitOp d rest i ∧ ∀ j, j < i → ¬ hitOp d rest j then 1 else 0 := by
-  obtain ⟨s', outs, hrun, _, _, hmatch⟩ := run_refines env rest s hinv hrest
+  obtain ⟨s', outs, hrun, _, htrack⟩ := run_track_model env henv x rest s (some d) hinv hrest
+    (at_of_counts x _ d hd h1 h0) (placed_ne_ops x rest hother)
   refine ⟨s', outs, hrun, ?_⟩
-  have hcnt := outsMatch_counts x _ _ hmatch
-  rw [Spec.TdmaSched.run_track x (rest.map absOp) (abs s) (some d) (at_of_counts x _ d hd h1 h0)
-    (placed_ne x rest hother)] at hcnt
+  have hcnt := htrack (placed_ne_fly env x outs (hfly s' outs hrun))
   intro i o ho
   have hi : i < rest.length := by
     have := run_length env rest s s' outs hrun
@@ -251,20 +343,20 @@ exactly `d` advances — once — and at no other operation of the history.  `e`
 current at the start has already been executed; `e ∧ d = 0` (an item put into the already executed
 current frame) is excluded — the ring statement says what happens then. -/
 theorem pending_runs_exactly_at (env : Env) (s : Sched) (x : AItem Cb) (d : Nat) (rest : List Op)
-    (e : Bool) (hinv : Inv env s) (hd : d < 25)
+    (e : Bool) (hinv : Inv env s) (henv : EnvOk env) (hd : d < 25)
     (h1 : (abs s d).count x = 1) (h0 : ∀ e', e' < 25 → e' ≠ d → (abs s e').count x = 0)
     (hrest : ∀ op ∈ rest, OpOk env op)
     (hother : ∀ op ∈ rest, x ∉ Spec.TdmaSched.placed (absOp op))
     (hnoreset : ∀ op ∈ rest, isResetOp op = false)
+    (hfly : ∀ s' outs, run env s rest = .ok (s', outs) → NoFlyPlaces env x outs)
     (hdisc : disciplined e rest = true) (hed : ¬ (e = true ∧ d = 0)) :
     ∃ s' outs, run env s rest = .ok (s', outs) ∧
       ∀ i o, outs[i]? = some o →
         ranCount x o = if rest[i]? = some .execute ∧ advancesBefore rest i = d then 1 else 0 := by
-  obtain ⟨s', outs, hrun, _, _, hmatch⟩ := run_refines env rest s hinv hrest
+  obtain ⟨s', outs, hrun, _, htrack⟩ := run_track_model env henv x rest s (some d) hinv hrest
+    (at_of_counts x _ d hd h1 h0) (placed_ne_ops x rest hother)
   refine ⟨s', outs, hrun, ?_⟩
-  have hcnt := outsMatch_counts x _ _ hmatch
-  rw [Spec.TdmaSched.run_track x (rest.map absOp) (abs s) (some d) (at_of_counts x _ d hd h1 h0)
-    (placed_ne x rest hother)] at hcnt
+  have hcnt := htrack (placed_ne_fly env x outs (hfly s' outs hrun))
   intro i o ho
   have hi : i < rest.length := by
     have := run_length env rest s s' outs hrun
@@ -282,20 +374,22 @@ theorem pending_runs_exactly_at (env : Env) (s : Sched) (x : AItem Cb) (d : Nat)
 
 /-- **runs_exactly_at** — the property as stated.  `tdma_schedule(off, cb, p1, p2, p3, prio)` with
 `off < 25` into a frame that has room returns 0, and then, under the firmware discipline, for every
-continuation of admissible operations (any scheduling traffic, overflowing or not) the callback
-`cb(p1, p2, p3)` of that item is invoked exactly once: by the `execute` that follows exactly `off`
-advances; no other operation invokes it.  (`x` is identified by callback, parameters and priority; it
-is assumed distinguishable: not already pending and not scheduled again.) -/
+continuation of admissible operations (any scheduling traffic, overflowing or not, from outside or from
+inside callbacks) the callback `cb(p1, p2, p3)` of that item is invoked exactly once: by the `execute`
+that follows exactly `off` advances; no other operation invokes it.  (`x` is identified by callback,
+parameters and priority; it is assumed distinguishable: not already pending and not scheduled again.) -/
 theorem runs_exactly_at (env : Env) (s : Sched) (off : Nat) (cb : Cb) (p1 p2 p3 : Nat) (prio : Int)
-    (rest : List Op) (e : Bool) (hinv : Inv env s) (hoff : off < 25)
+    (rest : List Op) (e : Bool) (hinv : Inv env s) (henv : EnvOk env) (hoff : off < 25)
     (hop : OpOk env (.schedule off cb p1 p2 p3 prio))
     (hroom : (abs s off).length < 8)
     (hfresh : ∀ d, d < 25 → (⟨cb, p1, p2, p3, prio⟩ : AItem Cb) ∉ abs s d)
     (hrest : ∀ op ∈ rest, OpOk env op)
     (hother : ∀ op ∈ rest, (⟨cb, p1, p2, p3, prio⟩ : AItem Cb) ∉ Spec.TdmaSched.placed (absOp op))
     (hnoreset : ∀ op ∈ rest, isResetOp op = false)
+    (hfly : ∀ s1 o s' outs, step env s (.schedule off cb p1 p2 p3 prio) = .ok (s1, o) →
+      run env s1 rest = .ok (s', outs) → NoFlyPlaces env ⟨cb, p1, p2, p3, prio⟩ outs)
     (hdisc : disciplined e rest = true) (hed : ¬ (e = true ∧ off = 0)) :
-    ∃ s1 s' outs, step env s (.schedule off cb p1 p2 p3 prio) = .ok (s1, ⟨0, []⟩) ∧
+    ∃ s1 s' outs, step env s (.schedule off cb p1 p2 p3 prio) = .ok (s1, ⟨0, [], []⟩) ∧
       run env s1 rest = .ok (s', outs) ∧
       ∀ i o, outs[i]? = some o →
         ranCount ⟨cb, p1, p2, p3, prio⟩ o =
@@ -311,6 +405,8 @@ theorem runs_exactly_at (env : Env) (s : Sched) (off : Nat) (cb : Cb) (p1 p2 p3 
   rw [if_neg hnf] at ha
   simp only [Prod.mk.injEq] at ha
   obtain ⟨ha1, ha2⟩ := ha
+  have hstep : step env s (.schedule off cb p1 p2 p3 prio) = .ok (s1, ⟨0, [], []⟩) := by
+    simp only [step, bind, Except.bind, he, ha2]; rfl
   have hc1 : (abs s1 off).count (⟨cb, p1, p2, p3, prio⟩ : AItem Cb) = 1 := by
     rw [ha1]
     simp only [Spec.TdmaSched.put, if_true, List.count_append, List.count_singleton, beq_self_eq_true]
@@ -321,25 +417,27 @@ theorem runs_exactly_at (env : Env) (s : Sched) (off : Nat) (cb : Cb) (p1 p2 p3 
     simp only [Spec.TdmaSched.put, hne, if_false]
     exact List.count_eq_zero.mpr (hfresh e' he')
   obtain ⟨s', outs, hrun, hcount⟩ :=
-    pending_runs_exactly_at env s1 ⟨cb, p1, p2, p3, prio⟩ off rest e hi1 hoff hc1 hc0 hrest hother
-      hnoreset hdisc hed
-  refine ⟨s1, s', outs, ?_, hrun, hcount⟩
-  simp only [step, bind, Except.bind, he, ha2]; rfl
+    pending_runs_exactly_at env s1 ⟨cb, p1, p2, p3, prio⟩ off rest e hi1 henv hoff hc1 hc0 hrest hother
+      hnoreset (fun s' outs hr => hfly s1 _ s' outs hstep hr) hdisc hed
+  exact ⟨s1, s', outs, hstep, hrun, hcount⟩
 
 /-- **Sets run frame by frame.**  An item of the k-th frame of a successfully scheduled set
 (`off + k < 25`) runs, under the firmware discipline, exactly once: at the `execute` that follows exactly
 `off + k` advances — k frames after the items of the set's first frame. -/
 theorem set_runs_exactly_at (env : Env) (s : Sched) (off : Nat) (set : List Item) (p3 : Nat)
     (k : Nat) (f : List (AItem Cb)) (x : AItem Cb) (rest : List Op) (e : Bool)
-    (hinv : Inv env s) (hop : OpOk env (.scheduleSet off set p3)) (hdepth : off + markers set < 25)
+    (hinv : Inv env s) (henv : EnvOk env) (hop : OpOk env (.scheduleSet off set p3))
+    (hdepth : off + markers set < 25)
     (hk : (framesOf p3 set)[k]? = some f) (hx1 : f.count x = 1)
     (hx0 : ∀ k' f', k' ≠ k → (framesOf p3 set)[k']? = some f' → x ∉ f')
     (hfresh : ∀ d, d < 25 → x ∉ abs s d)
     (hrest : ∀ op ∈ rest, OpOk env op)
     (hother : ∀ op ∈ rest, x ∉ Spec.TdmaSched.placed (absOp op))
     (hnoreset : ∀ op ∈ rest, isResetOp op = false)
+    (hfly : ∀ s1 o s' outs, step env s (.scheduleSet off set p3) = .ok (s1, o) →
+      run env s1 rest = .ok (s', outs) → NoFlyPlaces env x outs)
     (hdisc : disciplined e rest = true) (hed : ¬ (e = true ∧ off + k = 0)) :
-    ∃ s1 rc, step env s (.scheduleSet off set p3) = .ok (s1, ⟨rc, []⟩) ∧
+    ∃ s1 rc, step env s (.scheduleSet off set p3) = .ok (s1, ⟨rc, [], []⟩) ∧
       (rc ≠ -1 → ∃ s' outs, run env s1 rest = .ok (s', outs) ∧
         ∀ i o, outs[i]? = some o →
           ranCount x o = if rest[i]? = some .execute ∧ advancesBefore rest i = off + k then 1 else 0) := by
@@ -363,55 +461,255 @@ theorem set_runs_exactly_at (env : Env) (s : Sched) (off : Nat) (set : List Item
         List.count_eq_zero.mpr (hx0 (e' - off) _ (by omega) hget)]
     · rw [hun e' (by omega)]
       exact List.count_eq_zero.mpr (hfresh _ he')
-  exact pending_runs_exactly_at env s1 x (off + k) rest e hi1 (by omega) hc1 hc0 hrest hother hnoreset
-    hdisc hed
+  exact pending_runs_exactly_at env s1 x (off + k) rest e hi1 henv (by omega) hc1 hc0 hrest hother hnoreset
+    (fun s' outs hr => hfly s1 _ s' outs hstep hr) hdisc hed
 
-/-- **Nothing else runs.**  An item that is pending nowhere and is never scheduled is never run: in
-every history of admissible operations (any order, `reset` included) each callback invocation comes
-from an item that was pending or has been scheduled.  Together with `prio_order` (an `execute` runs
-exactly the items due now) and `pending_runs_ring` (a pending item runs only in its own frame) nothing
-runs in a frame it was not scheduled for. -/
+/-- **Nothing else runs.**  An item that is pending nowhere and is never scheduled — neither by an
+operation nor by a call made from inside a callback — is never run: in every history of admissible
+operations (any order, `reset` included) each callback invocation comes from an item that was pending or
+has been scheduled.  Together with `prio_order` (an `execute` runs exactly the items due now and what
+was added to the current frame meanwhile) and `pending_runs_ring` (a pending item runs only in its own
+frame) nothing runs in a frame it was not scheduled for. -/
 theorem nothing_else_runs (env : Env) (s : Sched) (x : AItem Cb) (ops : List Op)
-    (hinv : Inv env s) (hnone : ∀ d, d < 25 → x ∉ abs s d)
+    (hinv : Inv env s) (henv : EnvOk env) (hnone : ∀ d, d < 25 → x ∉ abs s d)
     (hops : ∀ op ∈ ops, OpOk env op)
-    (hother : ∀ op ∈ ops, x ∉ Spec.TdmaSched.placed (absOp op)) :
+    (hother : ∀ op ∈ ops, x ∉ Spec.TdmaSched.placed (absOp op))
+    (hfly : ∀ s' outs, run env s ops = .ok (s', outs) → NoFlyPlaces env x outs) :
     ∃ s' outs, run env s ops = .ok (s', outs) ∧ ∀ o ∈ outs, x ∉ o.ran.map absItem := by
-  obtain ⟨s', outs, hrun, _, _, hmatch⟩ := run_refines env ops s hinv hops
-  refine ⟨s', outs, hrun, ?_⟩
-  have hcnt := outsMatch_counts x _ _ hmatch
   have hat : Spec.TdmaSched.At x (abs s) none :=
     ⟨fun d h => by simp at h, fun e he => by simpa using List.count_eq_zero.mpr (hnone e he)⟩
-  rw [Spec.TdmaSched.run_track x (ops.map absOp) (abs s) none hat (placed_ne x ops hother)] at hcnt
+  obtain ⟨s', outs, hrun, _, htrack⟩ := run_track_model env henv x ops s none hinv hops hat
+    (placed_ne_ops x ops hother)
+  refine ⟨s', outs, hrun, ?_⟩
+  have hcnt := htrack (placed_ne_fly env x outs (hfly s' outs hrun))
   intro o ho
   obtain ⟨i, hi⟩ := List.mem_iff_getElem?.mp ho
   have := map_eq_getD (ranCount x) outs _ hcnt i o hi
   rw [Spec.TdmaSched.track_none] at this
   exact List.count_eq_zero.mp this
 
+/-! ### scheduling on the fly: calls made from inside a callback while `execute` runs -/
+
+/-- **A call from inside is the same call.**  `tdma_schedule()` / `tdma_schedule_set()` called by a
+callback act on the live scheduler exactly like the same call made between operations — so
+`overflow_reported`, `overflow_reported_set` and `set_placement` hold verbatim for calls made from
+inside: overflow from inside a callback is reported (`-1`) and changes nothing. -/
+theorem call_inside_is_call (env : Env) (s : Sched) (c : Call) :
+    step env s c.toOp = (runCall s c).map (fun r => (r.1, ⟨r.2, [], []⟩)) := by
+  cases c with
+  | schedule off cb p1 p2 p3 prio =>
+    simp only [Call.toOp, step, runCall, bind, Except.bind, Except.map]
+    cases schedule s off cb p1 p2 p3 prio <;> rfl
+  | scheduleSet off set p3 =>
+    simp only [Call.toOp, step, runCall, bind, Except.bind, Except.map]
+    cases scheduleSet s off set p3 <;> rfl
+
+/-- overflow from inside a callback: `tdma_schedule()` into a bucket that holds 8 items (the bucket
+being executed included — it still holds the items that already ran) returns −1 to the callback and
+the scheduler state is unchanged -/
+theorem overflow_inside_reported (env : Env) (s : Sched) (off : Nat) (cb : Cb) (p1 p2 p3 : Nat) (prio : Int)
+    (hinv : Inv env s) (hop : OpOk env (.schedule off cb p1 p2 p3 prio))
+    (b : Bucket) (hb : s.bucket[(s.cur + off) % 25]? = some b) (h8 : 8 ≤ b.numItems) :
+    runCall s (.schedule off cb p1 p2 p3 prio) = .ok (s, -1) := by
+  have h1 := (overflow_reported env s off cb p1 p2 p3 prio hinv hop b hb).1 h8
+  have h2 := call_inside_is_call env s (.schedule off cb p1 p2 p3 prio)
+  simp only [Call.toOp] at h2
+  rw [h1] at h2
+  cases hr : runCall s (.schedule off cb p1 p2 p3 prio) with
+  | error f => rw [hr] at h2; simp [Except.map] at h2
+  | ok r =>
+    rw [hr] at h2
+    simp only [Except.map, Except.ok.injEq, Prod.mk.injEq, Out.mk.injEq, and_true] at h2
+    obtain ⟨a1, a2⟩ := h2
+    rw [a1, a2]
+
+/-- **Nothing scheduled on the fly is lost.**  When `tdma_sched_execute()` clears the bucket, every item
+the frame held at that moment — the ones due at the start and every one added from inside — has been
+run exactly once (`Perm`); every other frame holds what the calls from inside made of it; the return
+values given to the callbacks are those of the same calls made from outside. -/
+theorem onfly_nothing_lost (env : Env) (s : Sched) (hinv : Inv env s) (henv : EnvOk env) :
+    ∃ s' out, step env s .execute = .ok (s', out) ∧
+      (out.ran.map absItem).Perm ((Spec.TdmaSched.run (abs s) (flyOps env out)).1 0) ∧
+      abs s' 0 = [] ∧
+      (∀ d, d ≠ 0 → abs s' d = (Spec.TdmaSched.run (abs s) (flyOps env out)).1 d) ∧
+      out.rets.flatten = (Spec.TdmaSched.run (abs s) (flyOps env out)).2.map (·.rc) := by
+  obtain ⟨s', out, h1, _, _, _, hx⟩ := execute_on_the_fly env s hinv henv
+  have hperm := Spec.TdmaSched.execOnTheFly_perm (absScr env) (abs s) (abs s') _ _ (absScr_isCall env) hx
+  obtain ⟨pre, fly, _, _, _, hdue, hrets⟩ := hx
+  refine ⟨s', out, h1, hperm, ?_, ?_, hrets⟩
+  · rw [hdue]; simp [Spec.TdmaSched.execute]
+  · intro d hd
+    rw [hdue]; simp [Spec.TdmaSched.execute, hd, flyOps]
+
+/-- **An item scheduled on the fly for a later frame** (`tdma_schedule(off, ..)` with `1 ≤ off < 25`
+called by a callback while frame F is executed, the call returned 0) does not run in frame F and then,
+under the firmware discipline, runs exactly once: at the `execute` that follows exactly `off` advances —
+in frame F + off — with its parameters; no other operation invokes it.  The call is identified by its
+position in `flyOps env out` (the calls made from inside during this `execute`, in order) and its
+return value by the same position in `out.rets`; `x` is assumed distinguishable (not pending, not
+scheduled by another call from inside or operation). -/
+theorem onfly_runs_exactly_at (env : Env) (s s1 : Sched) (out : Out) (off : Nat) (x : AItem Cb)
+    (pre post : List (Spec.TdmaSched.Op Cb)) (rest : List Op)
+    (hinv : Inv env s) (henv : EnvOk env) (hoff1 : 1 ≤ off) (hoff : off < 25)
+    (hexec : step env s .execute = .ok (s1, out))
+    (hsplit : flyOps env out = pre ++ Spec.TdmaSched.Op.schedule off x :: post)
+    (hret : out.rets.flatten[pre.length]? = some 0)
+    (hfresh : ∀ d, d < 25 → x ∉ abs s d)
+    (hpre : ∀ c ∈ pre, x ∉ Spec.TdmaSched.placed c) (hpost : ∀ c ∈ post, x ∉ Spec.TdmaSched.placed c)
+    (hrest : ∀ op ∈ rest, OpOk env op)
+    (hother : ∀ op ∈ rest, x ∉ Spec.TdmaSched.placed (absOp op))
+    (hnoreset : ∀ op ∈ rest, isResetOp op = false)
+    (hfly : ∀ s' outs, run env s1 rest = .ok (s', outs) → NoFlyPlaces env x outs)
+    (hdisc : disciplined true rest = true) :
+    ranCount x out = 0 ∧
+    ∃ s' outs, run env s1 rest = .ok (s', outs) ∧
+      ∀ i o, outs[i]? = some o →
+        ranCount x o = if rest[i]? = some .execute ∧ advancesBefore rest i = off then 1 else 0 := by
+  obtain ⟨s1', out', h1, hi1, _, _, hx⟩ := execute_on_the_fly env s hinv henv
+  rw [hexec] at h1
+  simp only [Except.ok.injEq, Prod.mk.injEq] at h1
+  obtain ⟨e1, e2⟩ := h1
+  subst e1; subst e2
+  have hat : Spec.TdmaSched.At x (abs s) none :=
+    ⟨fun d h => by simp at h, fun e he => by simpa using List.count_eq_zero.mpr (hfresh e he)⟩
+  obtain ⟨hcnt, hat1, _⟩ := Spec.TdmaSched.execOnTheFly_fresh (absScr env) (abs s) (abs s1) _ _ x pre post off
+    hoff (absScr_isCall env) hx hat hsplit
+    (fun c hc it hit hxx => by subst hxx; exact hpre c hc hit)
+    (fun c hc it hit hxx => by subst hxx; exact hpost c hc hit) hret
+  have hne : off ≠ 0 := by omega
+  simp only [hne, if_false] at hcnt hat1
+  refine ⟨hcnt, ?_⟩
+  have hc1 : (abs s1 off).count x = 1 := by simpa using hat1.2 off hoff
+  have hc0 : ∀ e', e' < 25 → e' ≠ off → (abs s1 e').count x = 0 := by
+    intro e' he' hne'
+    have := hat1.2 e' he'
+    have hn : ¬ (some off = some e') := by simp only [Option.some.injEq]; omega
+    simpa [hn] using this
+  exact pending_runs_exactly_at env s1 x off rest true hi1 henv hoff hc1 hc0 hrest hother hnoreset hfly hdisc
+    (by simp [hne])
+
+/-- **An item of a set scheduled on the fly** (`tdma_schedule_set(off, set, p3)` called by a callback
+while frame F is executed, no overflow reported; `fs` = the frames of the set as `flyOps` shows them,
+`off + fs.length ≤ 25`): the item `x` of its `k`-th frame, `off + k ≥ 1`, does not run in frame F and
+then, under the firmware discipline, runs exactly once, at the `execute` that follows exactly `off + k`
+advances — `k` frames after the items of the set's first frame. -/
+theorem onfly_set_runs_exactly_at (env : Env) (s s1 : Sched) (out : Out) (off k : Nat)
+    (fs : List (List (AItem Cb))) (f : List (AItem Cb)) (x : AItem Cb) (r : Int)
+    (pre post : List (Spec.TdmaSched.Op Cb)) (rest : List Op)
+    (hinv : Inv env s) (henv : EnvOk env) (hpos : 1 ≤ off + k) (hdepth : off + fs.length ≤ 25)
+    (hexec : step env s .execute = .ok (s1, out))
+    (hsplit : flyOps env out = pre ++ Spec.TdmaSched.Op.scheduleSet off fs :: post)
+    (hret : out.rets.flatten[pre.length]? = some r) (hr : r ≠ -1)
+    (hk : fs[k]? = some f) (hx1 : f.count x = 1)
+    (hx0 : ∀ k' f', k' ≠ k → fs[k']? = some f' → x ∉ f')
+    (hfresh : ∀ d, d < 25 → x ∉ abs s d)
+    (hpre : ∀ c ∈ pre, x ∉ Spec.TdmaSched.placed c) (hpost : ∀ c ∈ post, x ∉ Spec.TdmaSched.placed c)
+    (hrest : ∀ op ∈ rest, OpOk env op)
+    (hother : ∀ op ∈ rest, x ∉ Spec.TdmaSched.placed (absOp op))
+    (hnoreset : ∀ op ∈ rest, isResetOp op = false)
+    (hfly : ∀ s' outs, run env s1 rest = .ok (s', outs) → NoFlyPlaces env x outs)
+    (hdisc : disciplined true rest = true) :
+    ranCount x out = 0 ∧
+    ∃ s' outs, run env s1 rest = .ok (s', outs) ∧
+      ∀ i o, outs[i]? = some o →
+        ranCount x o = if rest[i]? = some .execute ∧ advancesBefore rest i = off + k then 1 else 0 := by
+  obtain ⟨s1', out', h1, hi1, _, _, hx⟩ := execute_on_the_fly env s hinv henv
+  rw [hexec] at h1
+  simp only [Except.ok.injEq, Prod.mk.injEq] at h1
+  obtain ⟨e1, e2⟩ := h1
+  subst e1; subst e2
+  have hat : Spec.TdmaSched.At x (abs s) none :=
+    ⟨fun d h => by simp at h, fun e he => by simpa using List.count_eq_zero.mpr (hfresh e he)⟩
+  have hklt : k < fs.length := (List.getElem?_eq_some_iff.mp hk).1
+  obtain ⟨hcnt, hat1, _⟩ := Spec.TdmaSched.execOnTheFly_fresh_set (absScr env) (abs s) (abs s1) _ _ x pre post
+    off k fs f r hdepth (absScr_isCall env) hx hat hsplit
+    (fun c hc it hit hxx => by subst hxx; exact hpre c hc hit)
+    (fun c hc it hit hxx => by subst hxx; exact hpost c hc hit) hk hx1 hx0 hret hr
+  have hne : off + k ≠ 0 := by omega
+  simp only [hne, if_false] at hcnt hat1
+  refine ⟨hcnt, ?_⟩
+  have hlt : off + k < 25 := by omega
+  have hc1 : (abs s1 (off + k)).count x = 1 := by simpa using hat1.2 (off + k) hlt
+  have hc0 : ∀ e', e' < 25 → e' ≠ off + k → (abs s1 e').count x = 0 := by
+    intro e' he' hne'
+    have := hat1.2 e' he'
+    have hn : ¬ (some (off + k) = some e') := by simp only [Option.some.injEq]; omega
+    simpa [hn] using this
+  exact pending_runs_exactly_at env s1 x (off + k) rest true hi1 henv hlt hc1 hc0 hrest hother hnoreset hfly
+    hdisc (fun h => hne h.2)
+
+/-- **An item scheduled on the fly for the current frame** (`tdma_schedule(0, ..)` called by a callback
+while `execute` runs, the call returned 0) runs exactly once in the SAME `execute`: the invoked callbacks
+are `p ++ f`, where `p` is a permutation of the items that were pending when `execute` started (`x` is
+not among them) and `f` — containing `x` once — is what the calls from inside appended to the current
+frame, in the order appended (`seq[]` is the identity beyond the sorted prefix: no priorities among
+them).  Afterwards `x` is pending nowhere: no later operation of any admissible history (any order,
+`reset` included) invokes it again. -/
+theorem onfly_same_frame (env : Env) (s s1 : Sched) (out : Out) (x : AItem Cb)
+    (pre post : List (Spec.TdmaSched.Op Cb)) (rest : List Op)
+    (hinv : Inv env s) (henv : EnvOk env)
+    (hexec : step env s .execute = .ok (s1, out))
+    (hsplit : flyOps env out = pre ++ Spec.TdmaSched.Op.schedule 0 x :: post)
+    (hret : out.rets.flatten[pre.length]? = some 0)
+    (hfresh : ∀ d, d < 25 → x ∉ abs s d)
+    (hpre : ∀ c ∈ pre, x ∉ Spec.TdmaSched.placed c) (hpost : ∀ c ∈ post, x ∉ Spec.TdmaSched.placed c)
+    (hrest : ∀ op ∈ rest, OpOk env op)
+    (hother : ∀ op ∈ rest, x ∉ Spec.TdmaSched.placed (absOp op))
+    (hfly : ∀ s' outs, run env s1 rest = .ok (s', outs) → NoFlyPlaces env x outs) :
+    ranCount x out = 1 ∧
+    (∃ p f, out.ran.map absItem = p ++ f ∧ p.Perm (abs s 0) ∧ x ∉ p ∧ f.count x = 1 ∧
+      f = ((Spec.TdmaSched.run (abs s) (flyOps env out)).1 0).drop (abs s 0).length) ∧
+    ∃ s' outs, run env s1 rest = .ok (s', outs) ∧ ∀ o ∈ outs, ranCount x o = 0 := by
+  obtain ⟨s1', out', h1, hi1, _, _, hx⟩ := execute_on_the_fly env s hinv henv
+  rw [hexec] at h1
+  simp only [Except.ok.injEq, Prod.mk.injEq] at h1
+  obtain ⟨e1, e2⟩ := h1
+  subst e1; subst e2
+  have hat : Spec.TdmaSched.At x (abs s) none :=
+    ⟨fun d h => by simp at h, fun e he => by simpa using List.count_eq_zero.mpr (hfresh e he)⟩
+  obtain ⟨hcnt, hat1, hord⟩ := Spec.TdmaSched.execOnTheFly_fresh (absScr env) (abs s) (abs s1) _ _ x pre post 0
+    (by decide) (absScr_isCall env) hx hat hsplit
+    (fun c hc it hit hxx => by subst hxx; exact hpre c hc hit)
+    (fun c hc it hit hxx => by subst hxx; exact hpost c hc hit) hret
+  simp only [if_true] at hcnt hat1
+  refine ⟨hcnt, hord rfl, ?_⟩
+  obtain ⟨s', outs, hrun, _, htrack⟩ := run_track_model env henv x rest s1 none hi1 hrest hat1
+    (placed_ne_ops x rest hother)
+  refine ⟨s', outs, hrun, ?_⟩
+  have hc := htrack (placed_ne_fly env x outs (hfly s' outs hrun))
+  intro o ho
+  obtain ⟨i, hi⟩ := List.mem_iff_getElem?.mp ho
+  have := map_eq_getD (ranCount x) outs _ hc i o hi
+  rw [Spec.TdmaSched.track_none] at this
+  exact this
+
 /-- **Error path** (outside the property's premise "callbacks report success", stated for the record):
-when `tdma_sched_execute()` returns a negative value a callback failed, and the scheduler state is
-exactly what it was — the bucket is not cleared, so its items, including the ones that already ran,
-stay scheduled (see the example below: they run again). -/
+when `tdma_sched_execute()` returns a negative value a callback failed; the bucket is not cleared, and
+the scheduler state is exactly what the scheduler calls of the callbacks that ran made of it (`foldCb`) —
+with callbacks that do not re-enter: exactly what it was, so the items of the bucket, including the ones
+that already ran, stay scheduled (see the example below: they run again). -/
 theorem execute_error_keeps_bucket (env : Env) (s s' : Sched) (out : Out)
-    (h : step env s .execute = .ok (s', out)) (hrc : out.rc < 0) : s' = s := by
+    (h : step env s .execute = .ok (s', out)) (hrc : out.rc < 0) :
+    foldCb env s out.ran = .ok (s', out.rets) ∧ (NoReentry env → s' = s) := by
   simp only [step, bind, Except.bind] at h
   cases he : execute env s with
   | error f => simp [he] at h
   | ok r =>
-    obtain ⟨s1, rc, ran⟩ := r
+    obtain ⟨s1, rc, ran, rets⟩ := r
     simp only [he, pure, Except.pure, Except.ok.injEq, Prod.mk.injEq] at h
     obtain ⟨h1, h2⟩ := h
     subst h1
-    rw [← h2] at hrc
-    exact execute_error_keeps_state env s s1 rc ran he hrc
+    rw [← h2] at hrc ⊢
+    have hf := execute_error_state env s s1 rc ran rets he hrc
+    exact ⟨hf, fun hne => foldCb_noReentry env hne ran s s1 rets hf⟩
 
 /-! ### non-vacuity: the hypotheses are satisfiable by non-trivial values, and the conclusions are what
 the model computes (each history below was also run on the real C code, same observations) -/
 
 /-- every callback reports success -/
-def env0 : Env := fun _ _ _ _ => 0
+def env0 : Env := ⟨fun _ _ _ _ => 0, []⟩
 /-- callback 10 reports an error -/
-def env1 : Env := fun id _ _ _ => if id = 10 then -1 else 0
+def env1 : Env := ⟨fun id _ _ _ => if id = 10 then -1 else 0, []⟩
 
 def frames (n : Nat) : List Op := (List.replicate n [Op.execute, Op.advance]).flatten
 
@@ -459,6 +757,96 @@ example : OpOk env0 (.scheduleSet 23 setEx 77) ∧ 23 + markers setEx < 25 ∧
 example : obs env0 (init 7) ([.scheduleSet 23 setEx 77] ++ frames 25) =
     some ([(1, [])] ++ (List.replicate 23 [(0, []), (0, [])]).flatten ++
       [(2, [2, 1]), (0, []), (1, [3]), (0, [])]) := by decide +kernel
+
+-- a long history: 300 frames from ring position 7, an item scheduled 24 frames ahead in frame 250 (pending
+-- while the number of advances passes 255) runs in frame 274 and in no other; cur_bucket ends at (7 + 300) % 25
+example : (run env0 (init 7) (frames 250 ++ Op.schedule 24 (.fn 3) 1 2 3 0 :: frames 50)).toOption.map
+    (fun r => (r.1.cur, (r.2.map (ranCount ⟨.fn 3, 1, 2, 3, 0⟩)).sum,
+      (r.2.map (ranCount ⟨.fn 3, 1, 2, 3, 0⟩))[500 + 1 + 48]?)) = some (7, 1, some 1) := by decide +kernel
+
+/-! ### callbacks that schedule on the fly (each history below was also run on the real C code) -/
+
+/-- callback 13 schedules from inside: two items for the current frame (priorities 5, then -5) and one
+for the frame after next; the second of them (14) is scripted itself (nesting): one more item for the
+current frame (15, scripted too: depth 3) and a two-frame set; 16 keeps re-scheduling itself for the
+current frame -/
+def envFly : Env := ⟨fun _ _ _ _ => 0,
+  [(13, [.schedule 0 (.fn 1) 101 0 0 5, .schedule 0 (.fn 14) 102 0 0 (-5), .schedule 2 (.fn 2) 103 0 0 0]),
+   (14, [.schedule 0 (.fn 15) 104 0 0 0,
+         .scheduleSet 1 [⟨.fn 3, 105, 0, 0, 0, 0⟩, ⟨.null, 0, 0, 0, 0, 0⟩, ⟨.fn 4, 106, 0, 0, 0, 0⟩,
+                         ⟨.endSet, 0, 0, 0, 0, 0⟩] 9]),
+   (15, [.schedule 1 (.fn 5) 107 0 0 0]),
+   (16, [.schedule 0 (.fn 16) 7 7 7 0])]⟩
+
+example : EnvOk envFly ∧ ¬ NoReentry envFly ∧ NoReentry env0 ∧ EnvOk env0 := by decide
+
+/-- per operation: return value, `p1` of the callbacks invoked (in order), return values of the calls
+each of them made from inside -/
+def obsFly (env : Env) (s : Sched) (ops : List Op) : Option (List (Int × List Nat × List (List Int))) :=
+  (run env s ops).toOption.map (fun r => r.2.map (fun o => (o.rc, o.ran.map (·.p1), o.rets)))
+
+def histPre : List Op :=
+  [.schedule 0 (.fn 7) 1 0 0 3, .schedule 0 (.fn 13) 2 0 0 (-1), .schedule 0 (.fn 6) 3 0 0 9]
+def restFly : List Op := [.advance, .execute, .advance, .execute, .advance, .execute]
+
+-- **the order the code gives**: the three items pending at the start run by priority (2, 1, 3); the items
+-- scheduled on the fly for the current frame run after them in the order they were appended — 101
+-- (priority 5) BEFORE 102 (priority -5), then 104 (appended by 102's callback); the items for later frames
+-- run one (set frame 0, item of 15) and two (item of 13, set frame 1) advances later
+example : obsFly envFly (init 24) (histPre ++ .execute :: restFly) =
+    some [(0, [], []), (0, [], []), (0, [], []),
+      (6, [2, 1, 3, 101, 102, 104], [[0, 0, 0], [], [], [], [0, 1], [0]]),
+      (0, [], []), (2, [105, 107], [[], []]), (0, [], []), (2, [103, 106], [[], []]), (0, [], []), (0, [], [])] := by
+  decide +kernel
+
+-- a callback that keeps re-scheduling itself for the current frame: the bucket fills up, the 8th
+-- invocation gets -1 from tdma_schedule(), the loop ends after TDMASCHED_NUM_CB calls; the frame is empty
+example : obsFly envFly (init 3) [.schedule 0 (.fn 16) 7 7 7 0, .execute, .execute] =
+    some [(0, [], []), (8, [7, 7, 7, 7, 7, 7, 7, 7], [[0], [0], [0], [0], [0], [0], [0], [-1]]), (0, [], [])] := by
+  decide +kernel
+
+/-- the items scheduled on the fly by callback 13: for the frame after next / for the current frame -/
+def xLater : AItem Cb := ⟨.fn 2, 103, 0, 0, 0⟩
+def xNow : AItem Cb := ⟨.fn 1, 101, 0, 0, 5⟩
+def xSet : AItem Cb := ⟨.fn 4, 106, 0, 9, 0⟩
+def preEx : List (Spec.TdmaSched.Op Cb) :=
+  [.schedule 0 ⟨.fn 1, 101, 0, 0, 5⟩, .schedule 0 ⟨.fn 14, 102, 0, 0, -5⟩]
+def postEx : List (Spec.TdmaSched.Op Cb) :=
+  [.schedule 0 ⟨.fn 15, 104, 0, 0, 0⟩, .scheduleSet 1 [[⟨.fn 3, 105, 0, 9, 0⟩], [⟨.fn 4, 106, 0, 9, 0⟩]],
+   .schedule 1 ⟨.fn 5, 107, 0, 0, 0⟩]
+
+-- hypotheses of `onfly_runs_exactly_at` (x = xLater, off = 2) and of `onfly_same_frame` (x = xNow) are
+-- satisfiable: the state after `histPre`, the `execute` of that frame, the continuation `restFly`
+example : ((run envFly (init 24) histPre).toOption.bind fun r =>
+    (step envFly r.1 .execute).toOption.bind fun q =>
+    (run envFly q.1 restFly).toOption.map fun t =>
+      decide (Inv envFly r.1 ∧
+        flyOps envFly q.2 = preEx ++ Spec.TdmaSched.Op.schedule 2 xLater :: postEx ∧
+        q.2.rets.flatten[preEx.length]? = some 0 ∧
+        (∀ d, d < 25 → xLater ∉ abs r.1 d) ∧
+        (∀ c ∈ preEx, xLater ∉ Spec.TdmaSched.placed c) ∧ (∀ c ∈ postEx, xLater ∉ Spec.TdmaSched.placed c) ∧
+        (∀ op ∈ restFly, OpOk envFly op) ∧ (∀ op ∈ restFly, xLater ∉ Spec.TdmaSched.placed (absOp op)) ∧
+        (∀ op ∈ restFly, isResetOp op = false) ∧ NoFlyPlaces envFly xLater t.2 ∧
+        disciplined true restFly = true ∧
+        -- ... and the conclusion evaluated
+        ranCount xLater q.2 = 0 ∧ t.2.map (ranCount xLater) = [0, 0, 0, 1, 0, 0] ∧
+        -- `onfly_same_frame`
+        flyOps envFly q.2 = [] ++ Spec.TdmaSched.Op.schedule 0 xNow :: (preEx.drop 1 ++ Spec.TdmaSched.Op.schedule 2 xLater :: postEx) ∧
+        q.2.rets.flatten[0]? = some 0 ∧ (∀ d, d < 25 → xNow ∉ abs r.1 d) ∧
+        (∀ c ∈ preEx.drop 1 ++ Spec.TdmaSched.Op.schedule 2 xLater :: postEx, xNow ∉ Spec.TdmaSched.placed c) ∧
+        NoFlyPlaces envFly xNow t.2 ∧ ranCount xNow q.2 = 1 ∧ t.2.map (ranCount xNow) = [0, 0, 0, 0, 0, 0])) =
+    some true := by decide +kernel
+-- `onfly_set_runs_exactly_at`: the item of the second frame of the set scheduled by callback 14 (off = 1, k = 1)
+example : ((run envFly (init 24) histPre).toOption.bind fun r =>
+    (step envFly r.1 .execute).toOption.bind fun q =>
+    (run envFly q.1 restFly).toOption.map fun t =>
+      decide (
+        flyOps envFly q.2 = (preEx ++ Spec.TdmaSched.Op.schedule 2 xLater :: postEx.take 1) ++
+          Spec.TdmaSched.Op.scheduleSet 1 [[⟨.fn 3, 105, 0, 9, 0⟩], [xSet]] :: postEx.drop 2 ∧
+        q.2.rets.flatten[(preEx ++ Spec.TdmaSched.Op.schedule 2 xLater :: postEx.take 1).length]? = some 1 ∧
+        (∀ d, d < 25 → xSet ∉ abs r.1 d) ∧ NoFlyPlaces envFly xSet t.2 ∧
+        ranCount xSet q.2 = 0 ∧ t.2.map (ranCount xSet) = [0, 0, 0, 1, 0, 0])) =
+    some true := by decide +kernel
 
 /-! ### corner cases of the real code, outside the premises of the property (confirmed on the C code) -/
 
